@@ -82,6 +82,24 @@ func (t *threadCtx) baseSources(e ast.Expr, depth int, out map[string]bool) {
 		if o == t.base {
 			out["own"] = true
 		}
+		// second result of a scope switch helper: loader, base = loader.scopeOf(ref, base)
+		tupled := false
+		ast.Inspect(t.fd.Body, func(n ast.Node) bool {
+			as, ok := n.(*ast.AssignStmt)
+			if !ok || len(as.Lhs) != 2 || len(as.Rhs) != 1 || (t.at.IsValid() && as.Pos() >= t.at) {
+				return true
+			}
+			if id, ok := as.Lhs[1].(*ast.Ident); ok && c.objOf(id) == o {
+				if call, ok := unparen(as.Rhs[0]).(*ast.CallExpr); ok && c.scopeSwitchHelper(t.fam, call) {
+					tupled = true
+				}
+			}
+			return true
+		})
+		if tupled {
+			out["update"] = true
+			return
+		}
 		ds := t.defsBefore(o)
 		if len(ds) == 0 && o != t.base {
 			out["?"+x.Name] = true
@@ -166,10 +184,77 @@ func (t *threadCtx) loaderSources(e ast.Expr, depth int, out map[string]bool) {
 			out["transitive"] = true
 			return
 		}
+		if c.scopeSwitchHelper(t.fam, x) {
+			out["transitive"] = true
+			return
+		}
 		out["?"+exprString(x)] = true
 	default:
 		out["?"+exprString(e)] = true
 	}
+}
+
+// scopeSwitchHelper: the call is of a loader method returning (loader, base path) each return of which hands back
+// either the receiver with the base it was given, or the transitive loader together with the base path switched
+// for it (transitiveResolver + updateBasePath packaged as one step).
+func (c *Ctx) scopeSwitchHelper(fam *expFamily, call *ast.CallExpr) bool {
+	g, _ := c.callee(call).(*types.Func)
+	if g == nil || g.Pkg() != c.Types {
+		return false
+	}
+	sig := g.Type().(*types.Signature)
+	if sig.Recv() == nil || !isNamed(sig.Recv().Type(), c.Types, fam.loader.Obj().Name()) || sig.Results().Len() != 2 {
+		return false
+	}
+	if !isNamed(derefType(sig.Results().At(0).Type()), c.Types, fam.loader.Obj().Name()) || !isStringType(sig.Results().At(1).Type()) {
+		return false
+	}
+	gfd := c.decl(g)
+	if gfd == nil || gfd.Body == nil {
+		return false
+	}
+	if c.scopeHelperMemo == nil {
+		c.scopeHelperMemo = map[*types.Func]bool{}
+	}
+	if v, ok := c.scopeHelperMemo[g]; ok {
+		return v
+	}
+	c.scopeHelperMemo[g] = false
+	gt := c.newThreadCtx(fam, gfd)
+	switched, good := 0, true
+	ast.Inspect(gfd.Body, func(n ast.Node) bool {
+		if _, isLit := n.(*ast.FuncLit); isLit {
+			return false
+		}
+		rs, ok := n.(*ast.ReturnStmt)
+		if !ok {
+			return true
+		}
+		if len(rs.Results) != 2 {
+			good = false
+			return true
+		}
+		gt.at = rs.Pos()
+		ls, bs := map[string]bool{}, map[string]bool{}
+		gt.loaderSources(rs.Results[0], 0, ls)
+		gt.baseSources(rs.Results[1], 0, bs)
+		if len(unknownSources(ls)) > 0 || len(unknownSources(bs)) > 0 {
+			good = false
+			return true
+		}
+		switch {
+		case ls["transitive"] && bs["update"]:
+			switched++
+		case ls["transitive"] || bs["update"]:
+			good = false
+		}
+		return true
+	})
+	c.scopeHelperMemo[g] = good && switched > 0
+	if c.scopeHelperMemo[g] {
+		c.saw(c.funcName(gfd))
+	}
+	return c.scopeHelperMemo[g]
 }
 
 func unknownSources(m map[string]bool) []string {
@@ -336,7 +421,7 @@ func ruleSwitchOnFollow(c *Ctx) {
 			if l := c.loaderArgOf(fam, call); l != nil {
 				if id, isId := unparen(l).(*ast.Ident); isId {
 					for _, d := range t.defsBefore(c.objOf(id)) {
-						if dc, isCall := unparen(d).(*ast.CallExpr); isCall && c.isSpecMethod(dc, fam.loader.Obj().Name(), "transitiveResolver") && dc.Pos() < follow.Pos() {
+						if dc, isCall := unparen(d).(*ast.CallExpr); isCall && (c.isSpecMethod(dc, fam.loader.Obj().Name(), "transitiveResolver") || c.scopeSwitchHelper(fam, dc)) && dc.Pos() < follow.Pos() {
 							early = true
 						}
 					}
@@ -350,6 +435,34 @@ func ruleSwitchOnFollow(c *Ctx) {
 				okAll, why = false, fmt.Sprintf("%s is expanded after the $ref was followed but the base path is not switched with updateBasePath", funcDisplay(g))
 			}
 		}
+		// the reference the scope is switched on is read after the $ref was followed: a by-value copy taken before
+		// still holds the FIRST reference of a chain, while the content that is about to be expanded comes from the
+		// document the LAST one led to
+		ast.Inspect(fd.Body, func(n ast.Node) bool {
+			sw, ok := n.(*ast.CallExpr)
+			if !ok || sw.Pos() < follow.End() {
+				return true
+			}
+			if !c.isSpecMethod(sw, fam.loader.Obj().Name(), "transitiveResolver") && !c.scopeSwitchHelper(fam, sw) {
+				return true
+			}
+			for _, a := range sw.Args {
+				id, isId := unparen(a).(*ast.Ident)
+				if !isId || !isNamed(c.typeOf(a), c.Types, "Ref") {
+					continue
+				}
+				if _, isPtr := c.typeOf(a).Underlying().(*types.Pointer); isPtr {
+					continue
+				}
+				for _, d := range t.defs[c.objOf(id)] {
+					if d != nil && d.Pos() < follow.Pos() {
+						okAll = false
+						why = fmt.Sprintf("the scope is switched on %s, a copy of the $ref taken before it was followed: after a chain of several $ref the copy still names the first hop, so the content brought from the last document is expanded against the wrong one", id.Name)
+					}
+				}
+			}
+			return true
+		})
 		if later == 0 {
 			continue
 		}
